@@ -81,7 +81,12 @@ impl CompressionAlgorithm {
         compressed: Bytes,
         size_hint: usize,
     ) -> Result<Bytes, CompressionError> {
-        let mut output = Vec::with_capacity(size_hint);
+        // A chunk never decompresses to more than its recorded source size: stop as soon as
+        // the (untrusted) payload produces more instead of buffering whatever it expands to.
+        let mut output = LimitedOutput {
+            buf: Vec::with_capacity(size_hint),
+            limit: size_hint,
+        };
         match self {
             #[cfg(feature = "lzma-compression")]
             CompressionAlgorithm::Lzma => {
@@ -100,7 +105,29 @@ impl CompressionAlgorithm {
                 brotli_decompressor::BrotliDecompress(&mut input_slice, &mut output)?;
             }
         }
-        Ok(Bytes::from(output))
+        Ok(Bytes::from(output.buf))
+    }
+}
+
+/// Output buffer which refuses to grow beyond the expected chunk size.
+struct LimitedOutput {
+    buf: Vec<u8>,
+    limit: usize,
+}
+
+impl std::io::Write for LimitedOutput {
+    fn write(&mut self, data: &[u8]) -> std::io::Result<usize> {
+        if data.len() > self.limit - self.buf.len() {
+            return Err(std::io::Error::new(
+                std::io::ErrorKind::InvalidData,
+                "decompressed chunk is larger than its source size",
+            ));
+        }
+        self.buf.extend_from_slice(data);
+        Ok(data.len())
+    }
+    fn flush(&mut self) -> std::io::Result<()> {
+        Ok(())
     }
 }
 
